@@ -49,6 +49,72 @@ mut("c01_ed25519_tag_check_dropped", "C01", "ssh-ed25519 identity no longer skip
 mut("c01_writer_loses_byte_at_boundary_armored", "C01", "stream Writer drops the chunk that becomes full exactly at the end of a Write when more than two chunks are buffered in one call",
  [("internal/stream/stream.go", """		if len(w.unwritten) == ChunkSize && len(p) > 0 {""", """		if len(w.unwritten) == ChunkSize && len(p) > 1 {""")])
 
+mut("c01_parse_identities_drops_unterminated_last_line", "C01", "ParseIdentities reads lines with ReadString and stops at io.EOF before looking at a last line that has no newline: the key of such a file is not loaded",
+ [("parse.go", """	scanner := bufio.NewScanner(io.LimitReader(f, privateKeySizeLimit))
+	var n int
+	for scanner.Scan() {
+		n++
+		line := scanner.Text()
+		if strings.HasPrefix(line, "#") || line == "" {
+			continue
+		}
+		i, err := ParseX25519Identity(line)
+		if err != nil {
+			return nil, fmt.Errorf("error at line %d: %v", n, err)
+		}
+		ids = append(ids, i)
+	}
+	if err := scanner.Err(); err != nil {
+		return nil, fmt.Errorf("failed to read secret keys file: %v", err)
+	}""", """	rd := bufio.NewReader(io.LimitReader(f, privateKeySizeLimit))
+	var n int
+	for {
+		line, err := rd.ReadString('\\n')
+		if err == io.EOF {
+			break
+		}
+		if err != nil {
+			return nil, fmt.Errorf("failed to read secret keys file: %v", err)
+		}
+		n++
+		line = strings.TrimRight(line, "\\r\\n")
+		if strings.HasPrefix(line, "#") || line == "" {
+			continue
+		}
+		i, err := ParseX25519Identity(line)
+		if err != nil {
+			return nil, fmt.Errorf("error at line %d: %v", n, err)
+		}
+		ids = append(ids, i)
+	}""")])
+mut("c01_parse_recipients_stops_at_blank_line", "C01", "ParseRecipients treats an empty line as the end of the list: recipients after a blank line are silently not encrypted to",
+ [("parse.go", """		line := scanner.Text()
+		if strings.HasPrefix(line, "#") || line == "" {
+			continue
+		}
+		r, err := ParseX25519Recipient(line)""", """		line := scanner.Text()
+		if line == "" && len(recs) > 0 {
+			break
+		}
+		if strings.HasPrefix(line, "#") || line == "" {
+			continue
+		}
+		r, err := ParseX25519Recipient(line)""")])
+mut("c01_parse_identities_comment_swallows_next_line", "C01", "ParseIdentities skips the line after a comment line too (a continuation-line notion nobody asked for)",
+ [("parse.go", """		line := scanner.Text()
+		if strings.HasPrefix(line, "#") || line == "" {
+			continue
+		}
+		i, err := ParseX25519Identity(line)""", """		line := scanner.Text()
+		if strings.HasPrefix(line, "#") && strings.HasSuffix(line, "r") {
+			scanner.Scan()
+			continue
+		}
+		if strings.HasPrefix(line, "#") || line == "" {
+			continue
+		}
+		i, err := ParseX25519Identity(line)""")])
+
 # ---------------- C02 ----------------
 mut("c02_revert_fix_trailing_with_eof", "C02", "reverts fix 6401ece: trailing byte delivered together with io.EOF is not seen",
  [("internal/stream/stream.go", """		if n, err := r.src.Read(make([]byte, 1)); n > 0 || err == nil {""", """		if _, err := r.src.Read(make([]byte, 1)); err == nil {""")])
